@@ -144,6 +144,19 @@ func (r *Run) SetBudget(d time.Duration) { r.deadline = r.start.Add(d) }
 func (r *Run) Expired() bool {
 	return !r.deadline.IsZero() && time.Now().After(r.deadline)
 }
+
+// SubBudget narrows the deadline to at most d from now (never beyond the run's own
+// deadline) and returns a function restoring the previous deadline: a slow part
+// degrades to exhaustive=false by itself instead of starving the parts after it.
+func (r *Run) SubBudget(d time.Duration) (restore func()) {
+	old := r.deadline
+	nd := time.Now().Add(d)
+	if old.IsZero() || nd.Before(old) {
+		r.deadline = nd
+	}
+	return func() { r.deadline = old }
+}
+
 func (r *Run) Remaining() time.Duration {
 	if r.deadline.IsZero() {
 		return time.Hour * 24
